@@ -32,9 +32,9 @@ TRUSTED = [
 ]
 ASSUMPTIONS = [
     "Section hypothesis batch_law (ActionProofs): for a callable marked batchable, f applied to the per-batch results (singleton batches passed through, at least two batches) equals f applied to all arguments -- proved for the backends' marked functions by C15; instantiated here on a field for sum (Batch.sum_batch_law)",
-    "mean/std algebra is over an abstract field with Leibniz equality (ring/field theory as Section hypotheses, n <> 0 for counts, sqrt uninterpreted); arrays are treated pointwise",
+    "mean/std over an abstract field with Leibniz equality (field_theory as hypothesis; for std additionally: every count n > 0 is non-zero in the field, sqrt uninterpreted, the array does not use the helper name **datatype**); arrays are treated pointwise; instantiated on Qc",
     "a node computes payload.func(*args, **kwargs) with input names replaced by the producers' values (C10 proves the lowering does that); expression trees ignore node names (C14)",
-    "the body of one batching round (transform + _batch_transform + select(drop) + squeeze/reduce + expand_dims + join) is modelled in collapsed form (Action.batch_round); label selection is positional under the NoDup check the model makes; both are tied by the per-run correspondence",
+    "Action.a_reduce iterates the closed form batch_round; C13_batch_round_transcription_partial proves it equal, per round, to the statement-by-statement transcription batch_round_t (transform over _batch_transform) for indexed dimensions, distinct labels, distinctly named scalar coordinates and a fresh batch-dimension name; batch_round_t itself is compared with the real a.transform(_batch_transform, ...) on every run (op bround); label selection inside the closed form is positional under the NoDup check the model makes",
     "coordinate label of reduce(keep_dim=True) is opaque (CKept first last); the implementation currently renders it with the repr of 0-d DataArrays -- the operation documents no label",
     "dimension coordinates on reduced/batched dimensions are unique; binary arithmetic between two actions is generated for equal dimension names/sizes/order only; yields (generator payloads) are not generated",
 ]
@@ -382,6 +382,28 @@ def ref_step(env, ins, seed, kind):
         return Ref(ad, {**ac, name: lab}, {**bsc, **asc}, np.concatenate([adata, bdata], axis=k), ix)
     if op == "binC":
         return Ref(a.dims, a.coords, a.scal, BINOPS[ins["f"]](a.data, ins["c"]), a.indexed)
+    if op == "bround":
+        d, bs, name = ins["d"], ins["bs"], ins["name"]
+        fname = ins.get("n") or ins["f"]
+        if d not in a.dims or bs < 1 or name in a.dims or name in a.scal or not all(a.indexed.values()):
+            raise Invalid()
+        k = a.dims.index(d)
+        n = a.size(d)
+        if len(set(map(repr, a.coords[d]))) != n or len(set(a.scal)) != len(a.scal):
+            raise Invalid()
+        rest = [x for x in a.dims if x != d]
+        outs = []
+        for lo in range(0, n, bs):
+            hi = min(n, lo + bs)
+            if hi - lo == 1:
+                outs.append(np.take(a.data, lo, axis=k))
+            else:
+                sub = Ref(a.dims, a.coords, a.scal, np.take(a.data, list(range(lo, hi)), axis=k))
+                outs.append(ref_reduce_core(sub, fname, {}, k, None))
+        coords = {x: a.coords[x] for x in rest}
+        if len(outs) == 1:
+            return Ref(rest, coords, {**a.scal, name: 0}, outs[0])
+        return Ref([name] + rest, {**coords, name: list(range(len(outs)))}, a.scal, np.stack(outs, axis=0))
     if op == "transform":
         params, name, vals, axis = ins["params"], ins["name"], ins.get("vals"), ins["axis"]
         if not params or (vals is not None and len(vals) < len(params)):
@@ -475,6 +497,11 @@ def impl_step(env, ins, seed, kind, reg):
         return getattr(a, {"pow": "power"}.get(ins["f"], ins["f"]))(copy_action(env[ins["b"]]), backend_kwargs=kw)
     if op == "binC":
         return getattr(a, {"pow": "power"}.get(ins["f"], ins["f"]))(ins["c"], backend_kwargs=kw)
+    if op == "bround":
+        d, bs = ins["d"], ins["bs"]
+        lst = a.nodes.coords[d].data
+        pay = Payload(getattr(backends, ins["n"])) if "n" in ins else Payload(REDF[ins["f"]])
+        return a.transform(fluent._batch_transform, [({d: lst[i:i + bs]}, pay) for i in range(0, len(lst), bs)], ins["name"])
     if op == "transform":
         dim = ins["name"] if ins.get("vals") is None else (ins["name"], list(ins["vals"]))
         if ins["body"] == "map":
@@ -723,6 +750,9 @@ def cinstr(ins):
         return f"IBinA {a} {cnat(ins['b'])} {cfn(ins['f'], False)} {kw}"
     if op == "binC":
         return f"IBinC {a} {cfn(ins['f'], False)} {ccv(ins['c'])} {kw}"
+    if op == "bround":
+        f = cfn(ins["n"], True) if "n" in ins else cuser(ins["f"])
+        return f"IBatchRound {a} {f} [] {d} {cnat(ins['bs'])} {cstr(ins['name'])}"
     if op == "transform":
         body = f"(TBMap {cuser(ins['f'])} [])" if ins["body"] == "map" else f"(TBSel {cstr(ins['d'])} true)"
         return f"ITransform {a} {body} {clist([ccv(p) for p in ins['params']])} {cstr(ins['name'])} {copt(ins.get('vals'), lambda v: clist([ccv(x) for x in v]))} {cZ(ins['axis'])}"
@@ -818,7 +848,7 @@ class Gen:
         ts = self.tsz[cur]
         ncell = int(np.prod(r.data.shape[:r.nn])) if r.nn else 1
         bad = self.malformed and not self.bad_done and rng.random() < 0.4
-        ops = ["map", "named", "named", "reduce", "mean", "std", "select", "iselect", "binC", "binA", "join", "broadcast", "transform"]
+        ops = ["map", "named", "named", "reduce", "mean", "std", "select", "iselect", "binC", "binA", "join", "broadcast", "transform", "bround"]
         if self.kind == "numpy":
             ops += ["stack", "concat", "flatten", "expand", "expand"]
         else:
@@ -857,6 +887,19 @@ class Gen:
             if op == "std" and 1 < ins["bs"] < n:
                 mult = 3 * n + 12
             return self.push(ins, ts * mult + 1)
+        if op == "bround":
+            if not big:
+                return False
+            d = rng.choice(big)
+            n = r.size(d)
+            ins = {"op": "bround", "a": cur, "d": d, "bs": rng.choice([1, 2, 2, 3, n - 1, n, n + 1]), "name": f"batch.0.{d}"}
+            if ins["bs"] < 1:
+                ins["bs"] = 1
+            if rng.random() < 0.6:
+                ins["n"] = rng.choice(NAMED)
+            else:
+                ins["f"] = rng.choice(["r_bsum", "r_bmax", "r_wsum"])
+            return self.push(ins, ts * min(n, max(ins["bs"], 1)) + 1)
         if op == "map":
             f = rng.choice(list(MAPF))
             ins = {"op": "map", "a": cur, "f": f}
